@@ -167,6 +167,8 @@ class Closure:
         return "Closure(%s)" % self.qualname()
 
     def qualname(self):
+        if ".<locals>." in self.name:
+            return "%s:%s" % (self.module, self.name)
         return "%s:%s%s" % (self.module, (self.cls.name + ".") if self.cls else "", self.name)
 
 
